@@ -319,6 +319,7 @@ func (cx *Ctx) checkErrPropagation(r *Report, rule, key string, fn *ssa.Function
 		r.Undecided(rule, key, w.FnPos(fn), "too many paths")
 		return
 	}
+	cx.checkDeferredErrOverwrite(r, rule, key, fn)
 	n := 0
 	for _, c := range callsIn(fn) {
 		call, isCall := c.(*ssa.Call)
@@ -1386,4 +1387,81 @@ func timeCheckWorker(fn *ssa.Function) (*ssa.Function, *ssa.Call) {
 		return nil, nil
 	}
 	return g, c
+}
+
+// checkDeferredErrOverwrite: what a function with deferred calls returns is what its result variables hold when the
+// deferred calls are done. A deferred function literal that assigns the named error result decides the verdict after
+// every `return` of the body has spoken: `defer func() { if err = ctx.Err(); err != nil { log } }()` turns the storage's
+// failure into success. An assignment there is accepted only when it cannot turn a failure into "no error": the value
+// stored is certainly an error (made on the spot, or found non-nil before the store), or the result was found nil
+// before the store (`if cerr := f.Close(); err == nil { err = cerr }`).
+func (cx *Ctx) checkDeferredErrOverwrite(r *Report, rule, key string, fn *ssa.Function) {
+	w, fx := cx.W, cx.Fx
+	res := fn.Signature.Results()
+	last := res.Len() - 1
+	var cell *ssa.Alloc
+	for _, ret := range returnsOf(fn) {
+		if len(ret.Results) != res.Len() {
+			continue
+		}
+		if u, ok := ret.Results[last].(*ssa.UnOp); ok {
+			if a, ok := u.X.(*ssa.Alloc); ok {
+				cell = a
+			}
+		}
+	}
+	if cell == nil {
+		return
+	}
+	for _, b := range fn.Blocks {
+		for _, in := range b.Instrs {
+			d, ok := in.(*ssa.Defer)
+			if !ok {
+				continue
+			}
+			mc, ok := d.Call.Value.(*ssa.MakeClosure)
+			if !ok {
+				continue
+			}
+			lit, _ := mc.Fn.(*ssa.Function)
+			if lit == nil || lit.Blocks == nil {
+				continue
+			}
+			var fv *ssa.FreeVar
+			for i, bnd := range mc.Bindings {
+				if bnd == ssa.Value(cell) && i < len(lit.FreeVars) {
+					fv = lit.FreeVars[i]
+				}
+			}
+			if fv == nil {
+				continue
+			}
+			for _, lb := range lit.Blocks {
+				for _, lin := range lb.Instrs {
+					st, ok := lin.(*ssa.Store)
+					if !ok || st.Addr != ssa.Value(fv) {
+						continue
+					}
+					okStore := isFreshError(st.Val)
+					if !okStore {
+						oldP := []string{deref(fx.path(st.Addr)), strings.TrimPrefix(fx.path(st.Addr), "&")}
+						vp := fx.path(st.Val)
+						for _, a := range fx.AtomsAt(st) {
+							if a.Op != "NIL" {
+								continue
+							}
+							if a.Neg && vp != "" && a.A == vp {
+								okStore = true // the value stored was found to be an error
+							}
+							if !a.Neg && (a.A == oldP[0] || a.A == oldP[1]) {
+								okStore = true // nothing to lose: the result was found nil
+							}
+						}
+					}
+					r.Check(okStore, rule, key+":deferred-overwrite@"+w.InstrPos(st), w.InstrPos(st), "the deferred assignment to the error result cannot turn a failure into success",
+						"a deferred function assigns the named error result of "+fn.Name()+" without having found it nil and without the value stored being certainly an error: the failure the body returned is replaced after the return, the caller sees success")
+				}
+			}
+		}
+	}
 }
